@@ -62,7 +62,7 @@ def main(argv=None):
         want = set(args.units.split(','))
         units = [(i, u) for i, u in units if u.name in want or any(u.name.startswith(w) for w in want)]
     second = args.tier == 'thorough'
-    timeout_ms = 120000 if args.tier == 'thorough' else 20000
+    timeout_ms = 180000 if args.tier == 'thorough' else 45000
     jobs = [(prop, i, second, timeout_ms) for i, _ in units]
     if len(jobs) > 1 and args.jobs > 1:
         ctx = mp.get_context('fork')
